@@ -79,6 +79,9 @@ def replay_history(case) -> List[Tuple[str, str]]:
             snap_before = _snap_listing(snapdir)
             cfg = cfg_off if step["kill"] else (cfg_on if (turn + len(ids) + case.get("flip", 0)) % 2 == 0 else cfg_on_nocache)
             ctx = E.mk_ctx(cfg, "A", turn)
+            if case.get("cfgonly"):
+                # the engine's own TurnCtx type carries the configuration as `cfg` only (no `config` alias)
+                delattr(ctx, "config")
             recs: Dict[str, List[dict]] = {}
             if variant == "apply":
                 if step["kill"]:
@@ -212,9 +215,9 @@ def check(run) -> None:
         res = run.tlc("ApplyCommit", cfg, name=f"ApplyCommit_c{cadence}_b{int(bust)}_n{len(ns)}_s{start}", workers=4, timeout_s=900)
         run.model_must_hold(res)
         for k, b in enumerate(res.emitted):
-            cases.append({"consts": consts, "h": b["h"], "variant": "apply", "workdir": run.workdir, "flip": len(cases) % 2})
+            cases.append({"consts": consts, "h": b["h"], "variant": "apply", "workdir": run.workdir, "flip": len(cases) % 2, "cfgonly": (len(cases) // 2) % 2})
             if k % (5 if q else 3) == 0 or any(s["kill"] for s in b["h"]) and k % 2 == 0:
-                cases.append({"consts": consts, "h": b["h"], "variant": "turn", "workdir": run.workdir, "flip": len(cases) % 2})
+                cases.append({"consts": consts, "h": b["h"], "variant": "turn", "workdir": run.workdir, "flip": len(cases) % 2, "cfgonly": (len(cases) // 2) % 2})
     outs = pmap(replay_history, cases, chunk=20)
     for c, fails in zip(cases, outs):
         run.traces += 1
@@ -223,7 +226,10 @@ def check(run) -> None:
         if not fails:
             run.ok(f"ApplyCommit.{c['variant']}.conforms")
         for clause, msg in fails:
-            run.fail(clause, {"variant": c["variant"], "clause": clause}, cc, f"[{c['variant']}] {msg}", replay={"case": cc})
+            sig = {"variant": c["variant"], "clause": clause}
+            if c.get("cfgonly"):
+                sig = {"ctx": "cfg-only", "clause": clause}
+            run.fail(clause, sig, cc, f"[{c['variant']}{' ctx.cfg only' if c.get('cfgonly') else ''}] {msg}", replay={"case": cc})
     run.sample({"history": cases[len(cases) // 2]["h"], "consts": cases[len(cases) // 2]["consts"]}, cap=3)
     from . import c04_sessions
     c04_sessions.check(run)
